@@ -102,6 +102,11 @@ func (server *SugarDB) Flush(database int) {
 		return
 	}
 
+	// If the database has not been created yet, there is nothing to flush.
+	if _, ok := server.store[database]; !ok {
+		return
+	}
+
 	// Clear db store.
 	clear(server.store[database])
 	// Clear db volatile key tracker.
